@@ -26,3 +26,12 @@ Fixpoint uv_dec_go (fuel : nat) (i : N) (x s : N) (l : bytes) : res (N * bytes) 
     end
   end.
 Definition uv_dec (l : bytes) : res (N * bytes) := uv_dec_go 10 0 0 0 l.
+
+(* readMinimalUvarint (recordio/common_reader.go): ReadUvarint, then the number of bytes consumed must be the
+   length of the minimal encoding of the value; anything longer is reported as a header checksum mismatch *)
+Definition uv_min_len (v : N) : nat := length (uv_enc v).
+Definition uv_dec_min (l : bytes) : res (N * bytes) :=
+  match uv_dec l with
+  | Ok (v, rest) => if Nat.eqb (length l - length rest) (uv_min_len v) then Ok (v, rest) else Err HeaderChecksum
+  | Err e => Err e
+  end.
